@@ -139,6 +139,8 @@ WriteMism(e) ==
          (IF (s[2] = 1) # (n >= T) THEN {IF s[2] = 1 THEN "wslice.success_without_space" ELSE "wslice.failed_with_space"} ELSE {})
          \cup (IF s[2] = 1 /\ (s[3] # T \/ s[6] # 1) THEN {"wslice.bytes"} ELSE {})
          \cup (IF s[2] = 0 /\ (s[3] # T \/ s[4] # n) THEN {"wslice.error_lengths"} ELSE {})
+         \* the same error converted into the builder's BuildSliceWriteError::Space still names the required length
+         \cup (IF s[2] = 0 /\ s[7] # T THEN {"wslice.converted_error_length"} ELSE {})
          \cup (IF s[5] # 1 THEN {"wslice.wrote_outside"} ELSE {}) \cup (IF s[2] = 0 /\ s[6] # 1 THEN {"wslice.garbage"} ELSE {})
          : i \in 1..Len(e.slices)}
   \cup UNION {LET m == e.limited[i]  lim == m[1] IN
